@@ -28,7 +28,12 @@ def main():
             print('%-8s no check built yet for %s' % (i, prop)); continue
         r = subprocess.run(['git', '-C', '/repo', 'apply', os.path.join(sd, i, 'patch.diff')], capture_output=True, text=True)
         if r.returncode:
-            print('%-8s patch does not apply: %s' % (i, r.stderr[:200])); continue
+            # the seed was written against the original snapshot; later fix: commits may have moved its context
+            r = subprocess.run(['git', '-C', '/repo', 'apply', '--3way', os.path.join(sd, i, 'patch.diff')], capture_output=True, text=True)
+            subprocess.run(['git', '-C', '/repo', 'reset', '-q'])
+            if r.returncode:
+                subprocess.run(['git', '-C', '/repo', 'checkout', '--', '.'])
+                print('%-8s patch does not apply: %s' % (i, r.stderr[:200])); continue
         try:
             for c in checks:
                 t = time.time()
